@@ -5,3 +5,5 @@ package tensor
 
 func verifIntsReturned(is []int) {}
 func verifIntsBorrowed(is []int) {}
+func verifPoolEnter()               {}
+func verifPoolExit()                {}
